@@ -201,6 +201,11 @@ def print_body(b, out=None):
 
 class Facts:
     def __init__(self, data):
+        import renames
+        if not data.get("_renames_applied"):
+            data["_renames_applied"] = True
+            renames.apply_fields(data)      # ... and so is a private field
+            renames.apply(data)             # a function that only changed its name is read under the name the rules know
         self.data = data
         self.config = data.get("_config")
         self.bodies = {}
